@@ -79,11 +79,13 @@ def check(prog, rep, tier):
                             key='negotiated-period', path=r.describe())
                     break
                 hv = h.origin if isinstance(h, Sym) else None
-                if not (hv and hv[0] == 'min'):
+                if not (hv and hv[0] == 'min' and
+                        any(a.desc().startswith(('CONF.', 'cfg.', 'oslo_config')) for a in hv[1]) and
+                        any(r.st.syminfo.get(a.desc(), (None,))[0] == '!BHHIB' for a in hv[1])):
                     rep.bad('R03.a', 'negotiated-hold@%s' % state, file='yabgp/core/protocol.py',
                             line=common.row_line(r), func='BGP.negotiate_hold_time',
                             found='negotiated hold time = %s' % cval(h),
-                            expected='min(configured, proposed)', key='negotiated-hold', path=r.describe())
+                            expected='min(configured hold time, hold time proposed in this OPEN)', key='negotiated-hold', path=r.describe())
                     break
     if n:
         if not any(i.rule == 'R03.a' and i.verdict == 'violation' and i.key.startswith('negotiated')
